@@ -1015,7 +1015,10 @@ def path_xpath(e) -> str:
     elif ax == 'a':
         step = '@' + test_xpath(ax, t)
     else:
-        step = {'d': 'descendant', 'ds': 'descendant-or-self', 's': 'self'}[ax] + '::' + test_xpath(ax, t)
+        step = {'d': 'descendant', 'ds': 'descendant-or-self', 's': 'self', 'pa': 'parent', 'an': 'ancestor',
+                'fs': 'following-sibling', 'ps': 'preceding-sibling'}[ax] + '::' + test_xpath(ax, t)
+        if ax == 'pa' and t == ('nd',) and not preds:
+            step = '..'
     step += preds
     # `//` abbreviation
     if ax in ('c', 'a') and p[0] == 's' and p[2] == 'ds' and p[3] == ('nd',) and p[4] == ('t',) and p[5] == ('t',) and p[6:] == ('abbr',):
@@ -1087,8 +1090,10 @@ class PathGen:
                 ax = 'c'
             elif k < 0.85:
                 ax = 'a' if not first_at_doc else 'c'
-            elif k < 0.93:
+            elif k < 0.90:
                 ax = r.choice(['d', 'ds'])
+            elif k < 0.97:
+                ax = r.choice(['pa', 'pa', 'an', 'fs', 'ps']) if not first_at_doc else 'd'
             else:
                 ax = 's' if not first_at_doc else 'd'
             t = self.test(ax)
@@ -1276,7 +1281,7 @@ def impl_err(e: Exception) -> str:
 class Impl:
     """one (schema, instance) pair loaded into the real code"""
 
-    def __init__(self, case: dict, xs=None, proxy=None):
+    def __init__(self, case: dict, xs=None, proxy=None, validate=None):
         import xmlschema
         import lxml.etree as LE
         from xml.etree import ElementTree as ET
@@ -1288,8 +1293,10 @@ class Impl:
         self.lib = case['lib']
         self.mod = LE if self.lib == 'lxml' else ET
         self.XPath2Parser, self.XPathContext, self.get_node_tree = XPath2Parser, XPathContext, get_node_tree
+        if validate is None:
+            validate = xs is None           # helper instances over a shared schema do not re-validate
         try:
-            self.valid = self.xs.built and not list(self.xs.iter_errors(case['xml']))
+            self.valid = bool(self.xs.built) and (not validate or not list(self.xs.iter_errors(case['xml'])))
         except Exception:
             self.valid = False
         self.parser_s = XPath2Parser(namespaces=dict(PNS), schema=self.proxy, variable_types={'v': 'item()'})
@@ -1633,7 +1640,7 @@ def check_case(run: Run, case: dict, ans: str, impl: Impl) -> None:
                 st.count('kind-test:nilled')
                 if got != m['NS'][ti] or got != m['NM'][ti]:
                     dis(f'kind-test-nilled:{key}:{T}', got, model=m['NM'][ti], spec=m['NS'][ti],
-                        tags=['F20n'] if m['NS'][ti] == '0' else [], site='_xpath2_operators.select__element_kind_test',
+                        tags=[], site='_xpath2_operators.select__element_kind_test',
                         extra={'expr': expr})
         # operators on the typed node: `+` and `=` use the typed value (driver: OM / OS)
         if valid and in_scope and not nil and m.get('OS', '-') != '-' and iv == mv and run.rng.random() < case['iof_rate']:
@@ -2024,7 +2031,7 @@ def corpus_cases() -> list[dict]:
 
 def correspond(run: Run) -> None:
     rng = run.rng
-    n = run.scale(1100, 9000)
+    n = run.scale(1000, 8000)
     run.stats.rule = (
         'one case = (generated schema over 21 builtin atomic types with restrictions, lists, unions, '
         'simple-content extensions, nillable, defaults, xsi:type, substitution groups, wildcards; XSD 1.0 or 1.1) '
@@ -2171,6 +2178,71 @@ def snapshot(impl: Impl, paths: list) -> dict:
     return {'recs': recs, 'sel': sels}
 
 
+def nodes_to_idx(root, nt, items) -> str:
+    from elementpath.xpath_nodes import AttributeNode, DocumentNode, XPathNode
+    eidx, aidx, idx_of, _ = node_index_maps(root, nt)
+    out = []
+    for x in items:
+        if isinstance(x, DocumentNode):
+            continue
+        if isinstance(x, AttributeNode):
+            owner = idx_of[id(x.parent)]
+            out.append(aidx.get((owner, x.name), aidx[(owner, None)]))
+        elif isinstance(x, XPathNode):
+            out.append(idx_of[id(x)])
+        elif hasattr(x, 'tag'):
+            out.append(eidx[x])
+        else:
+            return 'non-node:' + type(x).__name__
+    return ','.join(str(i) for i in sorted(set(out))) or '_'
+
+
+def shared_token_history(run: Run, cases: list, xs, proxy, hist_log: list) -> None:
+    """ONE parser, ONE parsed token per expression, ONE Selector, evaluated over several documents in
+    turn through every public path (token.select, token.evaluate, Selector.select / iter_select,
+    elementpath.select / iter_select); each answer is compared with a fresh parse on a fresh proxy"""
+    import elementpath
+    from xmlschema.xpath import XMLSchemaProxy
+    st = run.stats
+    star = ('*',)
+    exprs = [path_xpath(R_('//', ('c', star, ('l',)))), path_xpath(R_(('c', ('n', clark('root'))), ('c', star, ('p', 2)))),
+             path_xpath(('s', R_('//', ('c', star)), 'pa', ('nd',), ('t',), ('t',)))]
+    impl0 = Impl(cases[0], xs=xs, proxy=proxy)
+    parser = impl0.XPath2Parser(namespaces=dict(PNS), schema=proxy)
+    toks = {e: parser.parse(e) for e in exprs}
+    sels = {e: elementpath.Selector(e, namespaces=dict(PNS), parser=impl0.XPath2Parser, schema=proxy) for e in exprs}
+    for k in (0, 1, 0):
+        case = cases[k]
+        impl = Impl(case, xs=xs, proxy=proxy)
+        for e in exprs:
+            fresh = run_select(Impl(case, xs=xs, proxy=XMLSchemaProxy(xs)), e, True, True)
+            got = {}
+            try:
+                root, nt, ctx = impl.tree(True, as_doc=False)
+                got['token.select'] = nodes_to_idx(root, nt, list(toks[e].select(ctx)))
+                root, nt, ctx = impl.tree(True, as_doc=False)
+                res = toks[e].evaluate(ctx)
+                got['token.evaluate'] = nodes_to_idx(root, nt, res if isinstance(res, list) else [res])
+                root, nt, ctx = impl.tree(True, as_doc=False)
+                got['token.get_results'] = nodes_to_idx(root, nt, toks[e].get_results(ctx))
+                root = impl.parse_xml()
+                nt = impl.get_node_tree(root, namespaces=impl.ctx_namespaces())
+                got['Selector.select'] = nodes_to_idx(root, nt, sels[e].select(root))
+                got['Selector.iter_select'] = nodes_to_idx(root, nt, list(sels[e].iter_select(root)))
+                got['elementpath.select'] = nodes_to_idx(root, nt, elementpath.select(root, e, namespaces=dict(PNS), schema=proxy))
+                got['elementpath.iter_select'] = nodes_to_idx(root, nt, list(elementpath.iter_select(root, e, namespaces=dict(PNS), schema=proxy)))
+            except Exception as ex:
+                got['crash'] = impl_err(ex)
+            st.count('history:shared-token-step')
+            for api, v in got.items():
+                if v != fresh:
+                    run.disagree(Disagreement({'xsd': case['xsd'], 'xml': case['xml'], 'version': case['version'], 'lib': case['lib'],
+                                               'path': e, 'where': 'shared-token', 'history': hist_log + [f'{api} on instance {k} with the parser/token/Selector shared by all instances']},
+                                              impl=v, model=None, spec=fresh, what='shared-token',
+                                              site='parser / token / Selector reused across documents'))
+                    return
+
+
 def history_case(run: Run, rng) -> None:
     """unbuilt -> built transition, reuse after a failing evaluation, reuse across instances and
     across lxml/ElementTree; every step is compared with a FRESH proxy on a fresh context (and the
@@ -2260,6 +2332,12 @@ def history_case(run: Run, rng) -> None:
             # the Lean model of the not-fully-valid branch
             line = 'SU' + case['line'][1:].split(' Q ')[0] + ' Q 0'
             PENDING_UNBUILT.append((line, got, cid))
+    if rng.random() < 0.3:
+        try:
+            shared_token_history(run, cases, xs, proxy, hist_log)
+        except Exception as e:
+            run.disagree(Disagreement({'xsd': cases[0]['xsd'], 'where': 'shared-token', 'history': hist_log}, impl=impl_err(e),
+                                      spec='ok', what='shared-token', site='parser / token / Selector reused across documents'))
     st.count('history:cases')
     st.case({'history': hist_log, 'xsd': cases[0]['xsd'][:300]}, nontrivial=True, sample_every=37)
 
